@@ -55,6 +55,10 @@ def opsC17Addr : List (String × Handler) := [
       | none => "bad-op"
     | _ => "bad-op"),
   ("addr.from_b64", strOp fun s => outAcct (fromBase64Url s)),
+  ("addr.root_parse", strOp fun s => match parseAddress s with
+    | .ok (a, b) => s!"ok {a.wc.toInt} {outBV a.addr} {if b then 1 else 0}"
+    | .err _ => "err"
+    | .panic _ => "panic"),
   ("addr.parse", strOp fun s => outAcct (parseAccountID s)),
   ("addr.json", acctOp fun id => "ok " ++ outBV (toJSON id)),
   ("addr.from_json", strOp fun s => outAcct (fromJSON s)),
@@ -73,6 +77,30 @@ def opsC17Addr : List (String × Handler) := [
           | .panic _ => "panic"
         | .err _ => "err"
         | .panic _ => "panic"
+      | none => "bad-op"
+    | _ => "bad-op"),
+  ("addr.tlb_parse", fun
+    | [b] => match bitsArg b with
+      | some bs =>
+        let ac : Option (BitVec 32 × BitVec 32) → String := fun
+          | some (d, p) => s!"{d.toNat}/{p.toNat}"
+          | none => "-"
+        match parseTlbBits bs with
+        | .ok .none => "ok none"
+        | .ok (.extern x) => s!"ok extern {bitsStr x}"
+        | .ok (.std a wc addr) => s!"ok std {ac a} {wc.toInt} {outBV addr}"
+        | .ok (.var a ln wc x) => s!"ok var {ac a} {ln.toNat} {wc.toInt} {bitsStr x}"
+        | .err _ => "err"
+        | .panic _ => "panic"
+      | none => "bad-op"
+    | _ => "bad-op"),
+  ("addr.tlb_bits", fun
+    | [b] => match bitsArg b with
+      | some bs => match parseTlbBits bs with
+        | .ok m => match tlbBits m with
+          | some r => "ok " ++ bitsStr r
+          | none => "err"
+        | _ => "err"
       | none => "bad-op"
     | _ => "bad-op"),
   ("addr.anycast", fun
